@@ -389,6 +389,9 @@ func (r *vReplayer) step(i int, st vStep) *vMismatch {
 			return &vMismatch{"drift", "harness", i, "writer open", "no writer in slot"}
 		}
 		start := s.w.Start
+		if !s.w.prevCommit.IsZero() && !st.Noop && st.Res == "ok" {
+			r.cnt.Updates++ // goes through index.update
+		}
 		restore := vSteer(r.db, st.F2)
 		opErr, panicked = vCall(func() error { return s.w.Commit(r.ctx, c.ts(st.E)) })
 		restore()
